@@ -205,9 +205,48 @@ def _call(args):
         return ("err", "%s: %s\n%s" % (type(e).__name__, e, traceback.format_exc()))
 
 
-def pmap(func, items, workers=None, chunksize=1, ordered=True):
-    """Run func over items in a fork pool (func is registered by name so that
-    closures/lambdas defined at module level work with fork)."""
+class WorkerCrash:
+    """Returned in place of a result when the worker process died on that item."""
+
+    def __init__(self, item, detail):
+        self.item = item
+        self.detail = detail
+
+
+def _run_isolated(name, item):
+    """Run one item in its own forked process; returns ('ok', v) / ('crash', detail) / ..."""
+    ctx = multiprocessing.get_context("fork")
+    r, w = ctx.Pipe(duplex=False)
+
+    def child():
+        import pickle
+
+        res = _call((name, item))
+        w.send_bytes(pickle.dumps(res))
+        w.close()
+        os._exit(0)
+
+    p = ctx.Process(target=child)
+    p.start()
+    w.close()
+    try:
+        import pickle
+
+        data = r.recv_bytes()
+        p.join()
+        return pickle.loads(data)
+    except EOFError:
+        p.join()
+        return ("crash", "worker exit code %s" % p.exitcode)
+
+
+def pmap(func, items, workers=None, chunksize=1, ordered=True, on_crash=None):
+    """Run func over items in forked workers (func is registered by name so module-level
+    functions defined in check modules work).  A worker that dies (segfault in the C helpers,
+    OOM) does not hang the run: the affected items are re-run one per process; an item that
+    kills its process again yields on_crash(item, detail) (default: HarnessError)."""
+    import concurrent.futures as cf
+
     items = list(items)
     workers = workers or NCPU
     name = "%s.%s" % (func.__module__, func.__qualname__)
@@ -216,16 +255,30 @@ def pmap(func, items, workers=None, chunksize=1, ordered=True):
         res = [_call((name, it)) for it in items]
     else:
         ctx = multiprocessing.get_context("fork")
-        with ctx.Pool(min(workers, len(items))) as pool:
-            it = [(name, x) for x in items]
-            if ordered:
-                res = pool.map(_call, it, chunksize)
-            else:
-                res = list(pool.imap_unordered(_call, it, chunksize))
+        res = [None] * len(items)
+        broken = False
+        with cf.ProcessPoolExecutor(max_workers=min(workers, len(items)), mp_context=ctx) as ex:
+            futs = {ex.submit(_call, (name, it)): i for i, it in enumerate(items)}
+            for f in cf.as_completed(futs):
+                i = futs[f]
+                try:
+                    res[i] = f.result()
+                except cf.process.BrokenProcessPool:
+                    broken = True
+                except Exception as e:  # noqa
+                    res[i] = ("err", "%s: %s" % (type(e).__name__, e))
+        if broken:
+            for i, it in enumerate(items):
+                if res[i] is None:
+                    res[i] = _run_isolated(name, it)
     out = []
-    for kind, val in res:
+    for it, (kind, val) in zip(items, res):
         if kind == "ok":
             out.append(val)
+        elif kind == "crash":
+            if on_crash is None:
+                raise HarnessError("worker process died on item %r: %s" % (it, val))
+            out.append(on_crash(it, val))
         elif kind == "harness":
             raise HarnessError(val)
         else:
